@@ -158,8 +158,14 @@ func c12R1(c *Ctx, r *Report, rule string) {
 		case hdr == "ok-unknown":
 			// the header declares no addresses: the connection's own stay in force. The library's wrapper reports
 			// the empty address for such a header, so what is handed on must answer with the addresses of cx
-			if len(setvars) != 1 || setvars[0].Args[2] != "ppconn" {
-				bad = append(bad, "the parsed conn must be published on cx also for a header without addresses")
+			// what is published for a later proxy handler (GetConn) is the connection with the addresses in force:
+			// the one handed on - the library's wrapper itself answers with the empty address, and a proxy
+			// configured to send a PROXY header would send "UNKNOWN" instead of the connection's own addresses
+			switch {
+			case len(setvars) != 1:
+				bad = append(bad, "a connection must be published on cx also for a header without addresses")
+			case len(next) == 1 && next[0] != "Wrap(cx,"+setvars[0].Args[2]+")":
+				bad = append(bad, "after a version 1 header without addresses ('PROXY UNKNOWN') the connection published for a later proxy handler ("+setvars[0].Args[2]+") is not the one handed on ("+next[0]+"): the proxy takes the client's addresses from it for the PROXY header it sends, the library's wrapper answers with the empty address, and the upstream gets 'PROXY UNKNOWN' instead of the connection's own addresses - the client's effective ones")
 			}
 			why := ""
 			switch {
